@@ -2,6 +2,7 @@
 package coqgen
 
 import (
+	"crypto/sha256"
 	"encoding/hex"
 	"encoding/json"
 	"fmt"
@@ -11,11 +12,36 @@ import (
 	"strings"
 )
 
+// strings of at least InternMin bytes are emitted once, in strtab.v, and referred to by name
+var (
+	InternMin   = 40
+	internTable = map[string]string{}
+	internOrder []string
+)
+
 func Bytes(s string) string {
 	if s == "" {
 		return "[]"
 	}
+	if len(s) >= InternMin {
+		if n, ok := internTable[s]; ok {
+			return n
+		}
+		n := fmt.Sprintf("str_%d", len(internOrder))
+		internTable[s] = n
+		internOrder = append(internOrder, s)
+		return n
+	}
 	return `(hx "` + hex.EncodeToString([]byte(s)) + `")`
+}
+
+// Opaque renders a value of which only emptiness matters to the model (it is passed to oracles only)
+func Opaque(s string) string {
+	if s == "" {
+		return "[]"
+	}
+	h := sha256.Sum256([]byte(s))
+	return `(hx "` + hex.EncodeToString(h[:6]) + `")`
 }
 func Bool(v bool) string {
 	if v {
@@ -128,6 +154,9 @@ func (r *Run) Finish() error {
 		}
 		var sb strings.Builder
 		sb.WriteString(r.Imports + "\n")
+		if len(internOrder) > 0 {
+			sb.WriteString("From Run Require Import strtab.\n")
+		}
 		fmt.Fprintf(&sb, "Definition cases : list %s := [\n", r.CaseType)
 		sb.WriteString(strings.Join(r.cases[i:j], ";\n"))
 		sb.WriteString("\n].\n")
@@ -137,6 +166,16 @@ func (r *Run) Finish() error {
 			return err
 		}
 		n++
+	}
+	if len(internOrder) > 0 {
+		var tb strings.Builder
+		tb.WriteString("From Saml Require Import Base.Bytes.\n")
+		for i, v := range internOrder {
+			fmt.Fprintf(&tb, "Definition str_%d : bytes := Eval vm_compute in hx \"%s\".\n", i, hex.EncodeToString([]byte(v)))
+		}
+		if err := os.WriteFile(filepath.Join(r.Dir, "strtab.v"), []byte(tb.String()), 0o644); err != nil {
+			return err
+		}
 	}
 	if err := os.WriteFile(filepath.Join(r.Dir, "cases.jsonl"), []byte(strings.Join(r.index, "\n")+"\n"), 0o644); err != nil {
 		return err
